@@ -99,6 +99,9 @@ impl CsrInfo { pub fn key_id(&self) -> KeyIdentifier { unimplemented!() } }
     ])
     U.impl('impl ChildDetails', [
         U.fn(CH, 'ChildDetails', 'issued', external_body=True, ensures=[('assumed', 'r@ == child_keys(*self, *parent_rcn)')]),
+        # the class-name translations exist for the child's view of the protocol; used_keys is recorded under OUR class names
+        U.fn(CH, 'ChildDetails', 'name_for_parent_rcn', external_body=True),
+        U.fn(CH, 'ChildDetails', 'parent_name_for_rcn', external_body=True),
     ])
 
     def outer_inv(pred):
